@@ -188,6 +188,30 @@ def load_known(prop):
     return out
 
 
+_LEDGERS = {}
+
+
+def sig_hash(sig):
+    return hashlib.sha1(sig.encode("utf-8", "replace")).hexdigest()[:20]
+
+
+def load_ledger(relpath):
+    """A ledger lists, one per line, the exact failing inputs (hash of the violation
+    signature = API + pattern + haystack + wrong result) recorded for an open finding:
+    `<hash> <root-cause id> <human readable>`."""
+    if relpath in _LEDGERS:
+        return _LEDGERS[relpath]
+    d = {}
+    path = os.path.join(VERIF, relpath)
+    if os.path.exists(path):
+        for line in open(path, errors="replace"):
+            parts = line.rstrip("\n").split(" ", 2)
+            if len(parts) >= 2 and not line.startswith("#"):
+                d[parts[0]] = parts[1]
+    _LEDGERS[relpath] = d
+    return d
+
+
 def match_known(entries, v):
     """A violation v (dict with 'sig', 'kind', and 'detail') is attributed to an *open*
     entry only if the entry's signature matches exactly what failed.  An entry matches by
@@ -200,6 +224,11 @@ def match_known(entries, v):
             continue
         if "kind" in e and e["kind"] != v.get("kind"):
             continue
+        if "ledger" in e and v.get("sig") is not None:
+            led = load_ledger(e["ledger"])
+            rc = led.get(sig_hash(v["sig"]))
+            if rc is not None and ("rc" not in e or e["rc"] == rc):
+                return e
         if "sig" in e and e["sig"] == v.get("sig"):
             return e
         if "sig_re" in e and v.get("sig") is not None and re.search(e["sig_re"], v["sig"]):
@@ -230,6 +259,8 @@ def finish(ctx, manifest_level="proof"):
             seen_known.setdefault(e["id"], (e, v))
         else:
             new.append(v)
+    for e in ctx.known_hits:
+        seen_known.setdefault(e["id"], (e, None))
     for eid, (e, v) in sorted(seen_known.items()):
         print("KNOWN-FINDING: property=%s %s" % (ctx.prop, e["what"]), flush=True)
     # open entries that no longer reproduce: informational only
